@@ -604,6 +604,8 @@ impl File {
             // Note: This only syncs file data, not directory entries. Real OSes may flush
             // file data to disk but won't necessarily sync directory entries.
             if sync_prob > 0.0 && ctx.random_bool(sync_prob) {
+                #[cfg(feature = "verif-hooks")]
+                crate::verif::record(crate::verif::Decision::SyncCoin(true));
                 let _ = ctx.fs.sync_file(&path);
             }
 
@@ -861,6 +863,8 @@ impl File {
             // Note: This only syncs file data, not directory entries. Real OSes may flush
             // file data to disk but won't necessarily sync directory entries.
             if sync_prob > 0.0 && ctx.random_bool(sync_prob) {
+                #[cfg(feature = "verif-hooks")]
+                crate::verif::record(crate::verif::Decision::SyncCoin(true));
                 let _ = ctx.fs.sync_file(&path);
             }
 
